@@ -14,7 +14,7 @@ BUILDS = {
 }
 
 HOOK_COMMITS = ["9bb871a", "5fa190b"]
-FIX_COMMITS = ["1a9feb3", "a54e157", "e8eadf0"]
+FIX_COMMITS = ["1a9feb3", "a54e157", "e8eadf0", "4275899"]
 
 # properties not claimed, with the reason (filled while the checks are being built)
 NOT_APPLICABLE = {}
@@ -159,6 +159,28 @@ PROPS = {
         "runs": [
             {"engine": "th", "quick": 16000, "thorough": 1500000, "what": "E-T: detached mailbox (4/5) and live actor (1/5) under noise + rendezvous at the protocol's atomic steps"},
             {"engine": "vt", "quick": 8000, "thorough": 400000, "what": "E-A: live instant-spawned actor drained at 8 lifecycle stages (incl. before start / during pre_start), linked and unlinked"},
+        ],
+    },
+    "C08": {
+        "level": "fault_enumeration",
+        "technique": "runtime monitoring under fault enumeration: spawn failure cause x side effects already performed by pre_start x spawn API, incl. dropping the spawn future after n polls for every n (CutAfter), leaving it un-polled then dropping it (CutLate, thread-local) and aborting the start task at every poll k; post-failure assertions over registries, pg snapshot (H3), tree, waiters, supervision logs, drop tokens and reply ports",
+        "level_text": ("Fault enumeration: causes {pre_start Err/panic, name taken, kill during start-up, supervisor stopped during start-up, "
+                       "CutAfter(n) n=0..10, abort-start-task-at-poll k=1..10} x 64 subsets of side effects {join 2 groups, pg monitor + scope "
+                       "monitor, pid monitor, link elsewhere, queue casts and a call to itself, spawn a linked child} x 4 spawn APIs = 3840 "
+                       "cases for Send actors on the virtual-time engine (thorough: all; quick: a seeded third plus the empty and full "
+                       "effect sets), and 460 cases with thread-local actors on the thread engine. After each failed spawn: no callback "
+                       "runs, status Stopped, wait() returns, name/pid free and reusable, absent from every pg index, in no child set, "
+                       "own child stopped, no supervision event, queued messages dropped, queued call's port closed; a name clash leaves "
+                       "the holder untouched."),
+        "level_note": ("Cut points are the await points of this pre_start workload (5 yields + the spawner hand-off). For thread-local actors a "
+                       "cut that lands after pre_start completed on the spawner thread is treated as 'the actor did start': a consistent "
+                       "cancellation event and work done before the cancellation are accepted, an orphan running actor is not."),
+        "rule": ("each enumerated case is executed; non-trivial = the spawn did not produce a running actor; distinct = hash(cause, api, "
+                 "effects, callbacks and ticks the subject reached, engine)."),
+        "assumptions": ["the leaked reference is obtained from pre_start's `myself`"],
+        "runs": [
+            {"engine": "vt", "quick": 3840, "thorough": 3840, "what": "E-A: Send actors, 4 spawn APIs, CutAfter(n) and abort-at-poll-k crash points"},
+            {"engine": "th", "quick": 460, "thorough": 460, "what": "E-T: thread-local actors (spawner thread, AbortOnDropHandle path), CutAfter / CutLate"},
         ],
     },
 }
